@@ -1,10 +1,263 @@
-"""C11 — actor lifecycle: join, on_exit, daemons, kill time, suspend/resume. Machinery shared with C03 (see checks/C03.py)."""
+"""C11 — actor lifecycle: join, on_exit, daemons, kill time, suspend/resume (machinery shared with C03, see checks/C03.py)
+and auto-restart after host reboots (own machinery below: Coq model SGV.Kernel.Restart, harness/c11_restart_drv.cpp).
+K (restart): per incarnation (pid) creation (victim, host, date), on_exit callbacks run (tag, date) in order and termination
+   date of the extracted model vs. the rebuilt library, compared exactly (dates are multiples of 1/4 s).
+O (restart): evaluated on the implementation's log alone: every (incarnation, registered callback) pair runs exactly once,
+   in that incarnation, most recently registered first, at the date of its termination; a restarted incarnation inherits
+   exactly the callbacks registered on the actor whose set_auto_restart made the boot record; one new incarnation per
+   boot record at every effective reboot."""
+import json
+from collections import Counter
+from fractions import Fraction
 import C03
+import fw
+
+OFF, ON, KILLV, NOP = 1, 2, 3, 0
+
+
+# ------------------------------------------------------------------------------------------------- restart: cases
+def r_encode(c):
+    out = [c["nh"], len(c["victims"])]
+    for v in c["victims"]:
+        out += [v["host"], v["mode"], v["kill"], len(v["pre"])] + list(v["pre"]) + [len(v["post"])] + list(v["post"]) + [len(v["beh"])]
+        for b in v["beh"]:
+            out += [1 if b["auto"] else 0, len(b["start"])] + list(b["start"]) + [len(b["late"])] + list(b["late"]) + [b["life"]]
+    out.append(len(c["steps"]))
+    for s in c["steps"]:
+        out += [s[0], s[1]]
+    return out
+
+
+def r_gen(rng):
+    nh = rng.choice([1, 1, 2])
+    nv = rng.choice([1, 1, 2, 2, 3])
+    ns = rng.randint(2, 9)
+    dup = rng.random() < 0.1
+    victims = []
+    for v in range(1, nv + 1):
+        mode = rng.choice([1, 1, 1, 1, 1, 0, 0, 0, 2, 3])
+        cnt = [0]
+
+        def tags(n, base):
+            res = []
+            for _ in range(n):
+                cnt[0] += 1
+                res.append(7 if dup and rng.random() < 0.5 else 100 * v + base + cnt[0])
+            return res
+        beh = []
+        for i in range(rng.randint(1, 4)):
+            beh.append({"auto": rng.random() < (0.5 if mode in (0, 3) and i == 0 else 0.15),
+                        "start": tags(rng.choice([0, 1, 1, 2]), 10 * (i + 1)),
+                        "late": tags(rng.choice([0, 0, 1, 2]), 10 * (i + 1)),
+                        "life": rng.choice([0, 1, 2, ns + 2, ns + 2, ns + 2, rng.randint(0, ns + 2)])})
+        victims.append({"host": rng.randint(1, nh), "mode": mode,
+                        "kill": 4 * rng.randint(0, ns + 1) + 3 if rng.random() < 0.2 else 0,
+                        "pre": tags(rng.choice([0, 1, 1, 2]), 0), "post": tags(rng.choice([0, 0, 1, 2]), 0), "beh": beh})
+    steps, on = [], {h: True for h in range(1, nh + 1)}
+    for _ in range(ns):
+        r = rng.random()
+        h = rng.randint(1, nh)
+        if r < 0.08:
+            steps.append([KILLV, rng.randint(1, nv)])
+        elif r < 0.14:
+            steps.append([NOP, 0])
+        elif r < 0.22:                       # whatever the state (turning on a host that is on / off one that is off: no-op)
+            steps.append([rng.choice([OFF, ON]), h])
+            on[h] = steps[-1][0] == ON
+        else:
+            steps.append([OFF if on[h] else ON, h])
+            on[h] = not on[h]
+    return {"restart": 1, "nh": nh, "victims": victims, "steps": steps}
+
+
+def _v(host, mode, pre, post, beh, kill=0):
+    return {"host": host, "mode": mode, "kill": kill, "pre": pre, "post": post,
+            "beh": [{"auto": a, "start": s, "late": l, "life": f} for a, s, l, f in beh]}
+
+
+R_CORPUS = [
+    # three reboots; every restarted incarnation registers callbacks of its own (seeded change C11-a: shared instead of copied)
+    {"restart": 1, "nh": 1, "victims": [_v(1, 1, [100], [101], [(False, [], [], 9), (False, [11], [12], 9), (False, [21], [], 9), (False, [31], [], 9)])],
+     "steps": [[OFF, 1], [ON, 1], [OFF, 1], [ON, 1], [OFF, 1], [ON, 1], [OFF, 1]]},
+    # the actor makes itself auto-restart; late registrations of the first incarnation are inherited as well (shared record)
+    {"restart": 1, "nh": 1, "victims": [_v(1, 0, [100], [], [(True, [10], [11], 9), (False, [20], [21], 0), (False, [], [30], 9)])],
+     "steps": [[OFF, 1], [ON, 1], [NOP, 0], [ON, 1], [OFF, 1], [ON, 1], [KILLV, 1], [OFF, 1], [ON, 1]]},
+    # deployment-style records: auto-restart one (no inherited list) and a plain one (dropped at the first turn_off)
+    {"restart": 1, "nh": 2, "victims": [_v(1, 2, [100], [], [(False, [10], [], 9), (True, [20], [], 9)]), _v(1, 3, [200], [], [(False, [210], [], 9)]),
+                                        _v(2, 1, [300], [301], [(False, [], [], 1), (False, [320], [], 9)])],
+     "steps": [[OFF, 1], [ON, 1], [OFF, 2], [ON, 2], [OFF, 1], [ON, 1], [OFF, 2], [ON, 2]]},
+    # kill time recorded with the boot record: every incarnation created before it dies at that date, later ones have none
+    {"restart": 1, "nh": 1, "victims": [_v(1, 1, [100], [], [(False, [10], [], 9), (False, [20], [], 9)], kill=27)],
+     "steps": [[OFF, 1], [ON, 1], [OFF, 1], [ON, 1], [NOP, 0], [NOP, 0], [OFF, 1], [ON, 1], [NOP, 0]]},
+    # an auto-restart actor that returned before the reboot is restarted too; two victims on one host
+    {"restart": 1, "nh": 1, "victims": [_v(1, 1, [100], [], [(False, [], [], 0), (False, [120], [121], 0)]), _v(1, 1, [], [200], [(False, [210], [], 9)])],
+     "steps": [[NOP, 0], [OFF, 1], [ON, 1], [NOP, 0], [OFF, 1], [ON, 1], [ON, 1], [OFF, 1]]},
+]
+
+
+# ------------------------------------------------------------------------------------------------- restart: observations
+def r_ticks(x):
+    f = Fraction(float(x)) * 4
+    return int(f) if f.denominator == 1 else f
+
+
+def r_parse_impl(line):
+    obs = {"create": {}, "order": [], "reg": {}, "auto": {}, "exits": {}, "term": {}, "end": None, "crash": None}
+    for ent in line.split("|"):
+        t = ent.split()
+        if not t:
+            continue
+        if "CRASH" in t:
+            obs["crash"] = " ".join(t[t.index("CRASH"):])
+            t = t[:t.index("CRASH")]
+            if not t:
+                continue
+        if t[0] == "C":
+            obs["create"][int(t[1])] = (int(t[2]), int(t[3]), r_ticks(t[4]))
+            obs["order"].append(int(t[1]))
+        elif t[0] == "G":
+            obs["reg"].setdefault(int(t[1]), []).append((int(t[2]), r_ticks(t[3])))
+        elif t[0] == "A":
+            obs["auto"].setdefault(int(t[1]), r_ticks(t[2]))
+        elif t[0] == "X":
+            obs["exits"].setdefault(int(t[1]), []).append((int(t[2]), r_ticks(t[3])))
+        elif t[0] == "T":
+            obs["term"].setdefault(int(t[1]), []).append(r_ticks(t[2]))
+        elif t[0] == "E":
+            obs["end"] = r_ticks(t[1])
+    return obs
+
+
+def r_parse_model(m):
+    obs = {"create": {}, "exits": {}, "term": {}}
+    i = 0
+    while i < len(m):
+        if m[i] == 1:
+            obs["create"][m[i + 1]] = (m[i + 2], m[i + 3], m[i + 4])
+            i += 5
+        elif m[i] == 2:
+            obs["exits"].setdefault(m[i + 1], []).append((m[i + 2], m[i + 3]))
+            i += 4
+        else:
+            obs["term"].setdefault(m[i + 1], []).append(m[i + 2])
+            i += 3
+    return obs
+
+
+# ------------------------------------------------------------------------------------------------- restart: oracle
+def r_oracle(c, obs):
+    """The property text on an implementation log. Returns [(signature, explanation)]."""
+    if obs["crash"]:
+        return [("crash", "the simulation died: %s" % obs["crash"])]
+    bad = []
+    nv = len(c["victims"])
+    incs = {v: [p for p in obs["order"] if obs["create"][p][0] == v] for v in range(1, nv + 1)}
+    origin = {}
+    for v in range(1, nv + 1):
+        mode = c["victims"][v - 1]["mode"]
+        # the boot record shares the list of the actor whose set_auto_restart(true) created it: the first incarnation when it
+        # was not auto-restart already (records of the deployment have no list; restarted incarnations are born auto-restart)
+        first = incs[v][0] if incs[v] else None
+        origin[v] = first if mode != 2 and first is not None and first in obs["auto"] else None
+    for p in obs["order"]:
+        v = obs["create"][p][0]
+        ts = obs["term"].get(p, [])
+        if len(ts) != 1:
+            bad.append(("termination-count", "actor %d: %d termination signals" % (p, len(ts))))
+            continue
+        own = [t for t, _ in obs["reg"].get(p, [])]
+        o = origin[v]
+        inherited = [t for t, _ in obs["reg"].get(o, [])] if o is not None and p != o else []
+        want = (inherited + own)[::-1]
+        got = [t for t, _ in obs["exits"].get(p, [])]
+        if Counter(got) != Counter(want):
+            extra, missing = Counter(got) - Counter(want), Counter(want) - Counter(got)
+            bad.append(("on-exit-restart-not-once", "incarnation pid %d of victim %d (callbacks inherited from the boot record %s, registered on it %s): "
+                        "callbacks that ran at its end %s; ran without being registered on it / more than once: %s; never ran: %s"
+                        % (p, v, inherited, own, got, sorted(extra.elements()), sorted(missing.elements()))))
+        elif got != want:
+            bad.append(("on-exit-restart-order", "incarnation pid %d of victim %d: callbacks ran as %s, reverse registration order is %s" % (p, v, got, want)))
+        kt = c["victims"][v - 1]["kill"]
+        if kt > 0 and obs["create"][p][2] < kt < ts[0]:      # the kill time travels with the boot record
+            bad.append(("restart-kill-time-late", "incarnation pid %d of victim %d created at %s with kill time %s terminates at %s" % (p, v, obs["create"][p][2], kt, ts[0])))
+        if any(d != ts[0] for _, d in obs["exits"].get(p, [])):
+            bad.append(("on-exit-restart-date", "incarnation pid %d: callbacks at %s, termination at %s" % (p, obs["exits"][p], ts[0])))
+    for p in obs["exits"]:
+        if p not in obs["create"]:
+            bad.append(("on-exit-restart-not-once", "callbacks %s ran in actor %d which is no incarnation of a victim" % (obs["exits"][p], p)))
+    # one new incarnation per boot record at every effective reboot
+    on = {h: True for h in range(1, c["nh"] + 1)}
+    for j, (code, h) in enumerate(c["steps"]):
+        d = 4 * (j + 1)
+        if code == OFF and h in on:
+            on[h] = False
+        elif code == ON and h in on and not on[h]:
+            on[h] = True
+            for v in range(1, nv + 1):
+                sp = c["victims"][v - 1]
+                if sp["host"] != h:
+                    continue
+                rec = sp["mode"] == 2 or (origin[v] is not None and obs["auto"][origin[v]] < d)
+                born = [p for p in incs[v] if obs["create"][p][2] == d]
+                if len(born) != (1 if rec else 0):
+                    bad.append(("restart-count", "host %d rebooted at %s: victim %d (%s) has %d new incarnation(s)" % (h, d, v, "auto-restart" if rec else "not auto-restart", len(born))))
+    return bad
+
+
+def run_restart(ctx, nq, nt):
+    drv = fw.build_harness("c11_restart_drv", ["-std=gnu++20"])
+    cases = list(R_CORPUS) + [r_gen(ctx.rng) for _ in range(ctx.n(nq, nt))]
+    if ctx.replay:
+        cases = [json.load(open(ctx.replay))["case"]]
+    enc = [r_encode(c) for c in cases]
+    model = fw.run_model("c11", "run_c11_restart", enc)
+    rc, impl, err = fw.run_lines(drv, [], [" ".join(map(str, e)) for e in enc], timeout=3000)
+    if rc != 0 or len(impl) != len(cases):
+        raise fw.BuildError("c11_restart_drv ended with rc=%d after %d/%d cases: %s" % (rc, len(impl), len(cases), err[-300:]))
+    dist = {"cases": len(cases), "incarnations": 0, "restarted_incarnations": 0, "restarted_with_own_callbacks": 0, "callbacks_run": 0, "modes": {}}
+    for c, m, il in zip(cases, model, impl):
+        mo, io = r_parse_model(m), r_parse_impl(il)
+        for v in c["victims"]:
+            dist["modes"][v["mode"]] = dist["modes"].get(v["mode"], 0) + 1
+        restarted = [p for p, (v, _, d) in io["create"].items() if d > 0]
+        dist["incarnations"] += len(io["create"])
+        dist["restarted_incarnations"] += len(restarted)
+        dist["restarted_with_own_callbacks"] += sum(1 for p in restarted if io["reg"].get(p))
+        dist["callbacks_run"] += sum(len(x) for x in io["exits"].values())
+        nontrivial = bool(restarted)
+        ctx.case(("restart", str(r_encode(c))), nontrivial, {"case": c, "impl": il[:300]} if nontrivial and len(restarted) > 1 else None)
+        verdict = r_oracle(c, io)
+        for sig, what in verdict:
+            ctx.fail(sig, what + " | case " + json.dumps(c), c)
+        ctl = {p for p in io["term"] if p not in io["create"]}
+        same = (not io["crash"] and {p: x for p, x in mo["create"].items() if x[0] != 0} == io["create"]
+                and mo["exits"] == io["exits"] and {p: t for p, t in mo["term"].items() if mo["create"].get(p, (0,))[0] != 0} == {p: t for p, t in io["term"].items() if p not in ctl})
+        if not same and not verdict:
+            ctx.mismatch("correspondence SGV.Kernel.Restart.run_c11_restart vs c11_restart_drv",
+                         "model create %s exits %s term %s\nimpl  create %s exits %s term %s" % (mo["create"], mo["exits"], mo["term"], io["create"], io["exits"], io["term"]), c)
+    ctx.cov["input_distribution_restart"] = dist
+    ctx.assumptions += ["restart family: tick 1/4 s; the controller acts at whole seconds, victims register callbacks at their start and 1/4 s later, "
+                        "return at x.5 s, kill times at x.75 s: no two kinds of events share a date (their order inside one date is the model's: "
+                        "host actor list order, pid order)",
+                        "restart family: on_exit is never called on a dead actor, no actor is created on a host that is off, set_host is not used, "
+                        "the controller's host is never turned off; daemon flag and properties of boot records are not modelled"]
 
 
 def run(ctx):
-    C03.run_family(ctx, "C11", ["life", "life", "life", "wait"], 500, 12000,
-                   ["auto-restart after a host reboot and dynamic actor creation are not modelled"])
+    is_restart = False
+    if ctx.replay:
+        is_restart = isinstance(json.load(open(ctx.replay)).get("case"), dict) and "restart" in json.load(open(ctx.replay))["case"]
+    if not is_restart:
+        C03.run_family(ctx, "C11", ["life", "life", "life", "wait"], 500, 12000,
+                       ["dynamic actor creation is not modelled; auto-restart after a host reboot is modelled separately (SGV.Kernel.Restart)"])
+    else:
+        ctx.simgrid(["simgrid"])
+        ctx.prove()
+    if is_restart or not ctx.replay:
+        run_restart(ctx, 300, 2500)
+        ctx.cov["rule"] = ctx.cov.get("rule", "") + (" | restart family: generated reboot scenarios (1-2 hosts, 1-3 victims of 4 kinds, <= 9 controller "
+                                                     "steps off/on/kill/nop, per-incarnation callbacks, lifetimes, kill times); non-trivial = at least one "
+                                                     "incarnation was created by a reboot")
 
 
 META = {
@@ -13,12 +266,25 @@ META = {
             "each in reverse registration order at the date of the end, followed by the termination signal, and a dead actor keeps no callback, "
             "kill timer or daemon flag (C11_on_exit_once_reverse, C11_dead_is_clean); a scheduled suspended actor executes and observes nothing "
             "until resume (C11_suspended_no_progress); kill times and join timeouts are never jumped over by the clock "
-            "(C11_kill_time_not_jumped_over); observations of every run are time-ordered (C11_log_ordered). join = min(death, t0+t), daemon "
-            "sweep when the last regular actor ends, kill-time exactness and frozen execs of suspended actors are tied to the rebuilt library "
-            "by exact per-actor log comparison of generated programs and judged by an oracle on every implementation log.",
-    "note": "on_exit/suspension/time theorems are proved for all states or all runs; join, daemon sweep and kill-time exactness are checked by "
-            "the correspondence and the oracle only (no end-to-end Coq theorem). Not modelled: auto-restart after reboot, host failure, dynamic "
-            "creation, comm suspension. Fixed defect e6bd85acee (suspend of an actor owning a terminated exec crashed). Known finding "
+            "(C11_kill_time_not_jumped_over); observations of every run are time-ordered (C11_log_ordered). Auto-restart after host reboots "
+            "(model SGV.Kernel.Restart of HostImpl::turn_off/turn_on, ProcessArg, ActorImpl::create(ProcessArg*), set_auto_restart, with the "
+            "on_exit vectors as an explicit heap so that sharing is expressible), for every history of kernel events and any number of reboots: "
+            "the callbacks observed in an incarnation are exactly the content of its own vector, each once, most recent first, all at the date "
+            "of its end, nothing before its end and nothing in any other incarnation (C11_restart, C11_restart_nothing_before_creation); that "
+            "vector changes only by a registration on that very incarnation while it lives (C11_restart_callbacks_private); a re-created actor "
+            "starts with a copy of the recorded vector, the recorded code and host, auto-restart again (C11_restart_recreates_recorded); the "
+            "record shares the vector of the actor that called set_auto_restart and living actors never share (C11_restart_record, "
+            "C11_restart_no_sharing_between_actors); the share-instead-of-copy variant of create(ProcessArg*) is refuted "
+            "(C11_restart_share_variant_refuted). join = min(death, t0+t), daemon sweep, kill-time exactness, frozen execs of suspended actors, "
+            "and the reboot scenarios (which incarnations exist, what runs at their end, when) are tied to the rebuilt library by exact "
+            "per-actor log comparison of generated programs and judged by an oracle on every implementation log.",
+    "note": "on_exit/suspension/time/restart theorems are proved for all states, runs or event histories; join, daemon sweep and kill-time "
+            "exactness are checked by the correspondence and the oracle only (no end-to-end Coq theorem). The restart model is untimed (dates are "
+            "inputs of the history; the scenario compiler SGV.Kernel.Restart.history decides when events happen and is tied by the "
+            "correspondence only). Callbacks registered on the actor that called set_auto_restart are inherited by every restarted incarnation "
+            "(the record shares its vector: behaviour of the code, shown by teshsuite/s4u/actor-autorestart), callbacks registered on a "
+            "restarted incarnation are not. Not modelled: dynamic creation, comm suspension, daemon flag/properties/restart count of boot "
+            "records, set_host. Fixed defect e6bd85acee (suspend of an actor owning a terminated exec crashed). Known finding "
             "resume-reschedules-running-actor (C11_resume_race_witness): the model stops at the race, those cases are judged by the oracle.",
     "technique": C03.META["technique"],
     "claimed": True,
